@@ -298,11 +298,7 @@ func evalC09(c c09Case, rec *hx.Rec) error {
 	if ierr != nil {
 		return fmt.Errorf("MSM %+v returned error %v", c, ierr)
 	}
-	for j := range scal {
-		if scal[j] != scalCopy[j] {
-			return fmt.Errorf("MSM modified the caller's scalar %d", j)
-		}
-	}
+	_ = scalCopy // input purity is C13's subject, not C09's
 	want := hx.G.Mul(hx.G.Generator(), sum.Mod(sum, ref.R))
 	if !hx.G.IsValid(got) || !hx.G.Equal(got, want) {
 		return fmt.Errorf("MSM result differs from sum s_i*P_i: %+v (window c=%d, nbSplits=%d, NumCPU=%d)", c, cw, splits, runtime.NumCPU())
